@@ -38,7 +38,7 @@ def main():
     finally:
         if scratch:
             subprocess.run(["git", "-C", "/repo", "worktree", "remove", "--force", target], check=False)
-            subprocess.run("rm -rf /verif/build-alt-* /verif/out-alt-*", shell=True)
+            suf = __import__("hashlib").md5(os.path.realpath(target).encode()).hexdigest()[:6]; subprocess.run("rm -rf /verif/build-alt-%s /verif/out-alt-%s" % (suf, suf), shell=True)
         else:
             subprocess.run(["git", "-C", "/repo", "checkout", "--", "."], check=True)
             subprocess.run(["git", "-C", "/repo", "clean", "-fdq", "--", "kernel", "valget"], check=False)
